@@ -153,13 +153,17 @@ def build(S, tier):
         s = I.path.fresh("step", "int")
         I.path.assume(s.t >= 0)
         mc.attrs["step_count"] = s
+        assume_due_weights(I, tab, s)
+        return mc, tab, M, s
+
+    def assume_due_weights(I, tab, s):
         # precondition of the statement: the weights of the due moves are not all zero
         import itertools
+        k = len(tab)
         for r in range(1, k + 1):
             for D in itertools.combinations(range(k), r):
                 is_due = z3.And([(s.t % tab[j]["interval"].t == 0) if j in D else (s.t % tab[j]["interval"].t != 0) for j in range(k)])
                 I.path.assume(z3.Implies(is_due, sum(tab[j]["w"].t for j in D) > 0))
-        return mc, tab, M, s
 
     class Opaque(Ext):
         def __init__(self, name):
@@ -181,24 +185,41 @@ def build(S, tier):
         loop_info["state_written"] = [a for a in mc.attrs if mc.attrs[a] is not before.get(a)]
         loop_info["slot"] = j
 
-    for k in (1, 2, 3):
-        def run(I, k=k):
+    # `warm`: the SAME driver object has already produced the schedule of another, unrelated step (earlier or later: users
+    # rewind `step_count` for a second stage, and `irun` hands out step generators that may be left unconsumed); the
+    # schedule of the present step must be the same function of (step_count, table) as on a fresh object.
+    for k, warm in ((1, False), (2, False), (3, False), (1, True), (2, True)):
+        def run(I, k=k, warm=warm):
             models(I)
             loop_info.clear()
             mc, tab, M, s = make_mc(I, k)
+            ndraws = 0
+            if warm:
+                list(I.iterate(I.call(I.getattr(mc, "yield_moves"), [], {})))
+                loop_info.clear()
+                s = I.path.fresh("step_now", "int")
+                I.path.assume(s.t >= 0)
+                mc.attrs["step_count"] = s
+                assume_due_weights(I, tab, s)
+                ndraws = len(mc.attrs["_rng"].draws)
             gen = I.call(I.getattr(mc, "yield_moves"), [], {})
             out = list(I.iterate(gen))
-            return dict(mc=mc, tab=tab, M=M, s=s, out=out, rng=mc.attrs["_rng"], loop=dict(loop_info))
+            rng = mc.attrs["_rng"]
+            if warm:
+                import copy as _copy
+                rng = _copy.copy(rng)
+                rng.draws = list(mc.attrs["_rng"].draws[ndraws:])
+            return dict(mc=mc, tab=tab, M=M, s=s, out=out, rng=rng, loop=dict(loop_info))
 
         def configure(I):
             I.loop_contracts[(MC + ".yield_moves", 0)] = loop_contract     # the only `for` statement: `for index in range(max_cycles)`
 
-        label = f"{MC}.yield_moves[k={k}]"
-        paths = S.explore(run, label, configure=configure, max_paths=200)
+        label = f"{MC}.yield_moves[k={k}]" + (", after the schedule of another step was produced by the same object" if warm else "")
+        paths = S.explore(run, label, configure=configure, max_paths=400 if warm else 200)
         S.register_function(S.new_interp(), MC + ".yield_moves", len(paths))
         saw_empty = saw_forced = saw_free = False
         for i, p in enumerate(paths):
-            S.adopt(p, prefix=f"[k={k}]")
+            S.adopt(p, prefix=f"[k={k}{', warm' if warm else ''}]")
             if p.status == "unsupported":
                 continue
             if p.status != "return":
@@ -210,13 +231,25 @@ def build(S, tier):
             # which entries are due on this path (decided by the branch conditions of the path)
             due_terms = [s % t["interval"].t == 0 for t in tab]
 
+            unknown = []
+
             def implied(f):
+                if unknown:
+                    return False
                 sv = z3.Solver()
+                sv.set("timeout", 10000)
                 sv.add(*hy)
                 sv.add(z3.Not(f))
-                return sv.check() == z3.unsat
+                r = sv.check()
+                if r == z3.unknown:
+                    unknown.append(f)
+                return r == z3.unsat
             due = [implied(d) for d in due_terms]
             notdue = [implied(z3.Not(d)) for d in due_terms]
+            if unknown:
+                # the solver could not tell whether the path decides `step % interval == 0`: undecided, never a violation
+                S.unsupported.append((label, f"path {i}: solver gave no answer on whether the path condition decides step % interval == 0"))
+                continue
             S.prove(f"{label}#ensures.due_filter_decided_by_step_mod_interval@{i}", all(a or b for a, b in zip(due, notdue)), kind="ensures",
                     why="the path does not decide every `step % interval == 0`")
             due_names = [t["name"] for t, d in zip(tab, due) if d]
